@@ -41,17 +41,21 @@ def rank(p):
     return 3 * pr[p[1]] + pr[p[2]]
 
 
-def setting(p, v):
-    """registration arguments <<inMemory, idleSec, writeIntervalSec, maxFileSize>> of pattern p, version v.
-    v = 0 base; 1: the other swamp type and another idle timeout; 2: as base, only write interval / file
-    size differ (same as base for an in-memory pattern); 3: as base, only the idle timeout differs.
+def setting(p, v=(0, 0, 0)):
+    """registration arguments <<inMemory, idleSec, writeIntervalSec, maxFileSize>> of pattern p in version
+    v = (t, i, w): every dimension can change on its own - t = 1 the other swamp type, i = 1 another idle
+    timeout, w = 1 another write interval / file size (no effect on an in-memory registration).
     In-memory registrations carry no filesystem settings (as the gateway sends them)."""
-    i = rank(p)
-    mem = (i + (1 if v == 1 else 0)) % 2
-    idle = 10 + i + (20 if v == 1 else 0) + (30 if v == 3 else 0)
+    t, i, w = v
+    r = rank(p)
+    mem = (r + t) % 2
+    idle = 10 + r + 30 * i
     if mem:
         return [1, idle, 0, 0]
-    return [0, idle, 40 + i + (20 if v == 2 else 0), 1000 + i + (100 if v == 2 else 0)]
+    return [0, idle, 40 + r + 20 * w, 1000 + r + 100 * w]
+
+
+VERSIONS = [(t, i, w) for t in (0, 1) for i in (0, 1) for w in (0, 1)]
 
 
 def matches(n, p):
@@ -62,7 +66,7 @@ def look(reps):
     return dict(op="look", names=PROBES, reps=reps)
 
 
-def reg(p, v=0):
+def reg(p, v=(0, 0, 0)):
     return dict(op="reg", p=p, set=setting(p, v))
 
 
@@ -75,20 +79,24 @@ def order_case(order, reps, suffix=None):
 
 
 def variation_suffix(P, rng, reps):
-    """re-registration with changed settings (type flip; only write interval / file size; only idle), with
-    unchanged settings, deregistration and registration again"""
+    """re-registrations that change ONE dimension at a time (only the type - in both directions -, only the
+    idle timeout, only write interval / file size), an unchanged one, all at once, deregistration and
+    registration again; lookups after each and after restarts"""
     if not P:
         return []
     ops = []
+    L, R = look(reps), dict(op="restart")
     p = rng.choice(P)
-    ops += [reg(p, 1), look(reps), dict(op="restart"), look(reps)]
+    ops += [reg(p, (1, 0, 0)), L, R, L]                   # only the type changes (same idle timeout)
+    ops += [reg(p, (0, 0, 0)), L, R, L]                   # and back: the other direction
     q = rng.choice(P)
-    ops += [reg(q, 1 if q == p else 0), look(reps)]           # unchanged re-registration
+    ops += [reg(q, (0, 0, 0)), L]                         # unchanged (or first change back) re-registration
+    ops += [reg(q, (0, 1, 0)), L, reg(q, (0, 1, 1)), L, R, L]   # only idle, then only write interval / file size
     u = rng.choice(P)
-    ops += [reg(u, 0), reg(u, 2), look(reps), reg(u, 3), look(reps), dict(op="restart"), look(reps)]
+    ops += [reg(u, (1, 1, 1)), L, reg(u, (1, 1, 1)), L, R, L]   # everything, then unchanged
     d = rng.choice(P)
-    ops += [dict(op="dereg", p=d), look(reps), dict(op="restart"), look(reps)]
-    ops += [reg(d, 2), look(reps)]
+    ops += [dict(op="dereg", p=d), L, R, L]
+    ops += [reg(d, (1, 0, 1)), L]
     return ops
 
 
@@ -97,7 +105,7 @@ def random_history(rng, reps, length):
     for _ in range(length):
         x = rng.random()
         if x < 0.45:
-            ops.append(reg(rng.choice(ALLPAT), rng.randrange(4)))
+            ops.append(reg(rng.choice(ALLPAT), rng.choice(VERSIONS)))
         elif x < 0.55:
             ops.append(dict(op="dereg", p=rng.choice(ALLPAT)))
         elif x < 0.70:
@@ -307,9 +315,9 @@ def run(ctx):
         syn = [dict(ev="reset", case=0, forget=1)]
         P = [["a", "*", "*"], ["a", "x", "*"], ["a", "x", "y"]]
         for q in P:
-            syn.append(dict(ev="reg", case=0, p=q, set=setting(q, 0)))
+            syn.append(dict(ev="reg", case=0, p=q, set=setting(q)))
         eff = lambda s: [1, s[1], 0, 0] if s[0] == 1 else s
-        syn.append(dict(ev="look", case=0, res=[dict(n=["a", "x", "y"], obs=[dict(pat=P[1], set=eff(setting(P[1], 0)))])]))
+        syn.append(dict(ev="look", case=0, res=[dict(n=["a", "x", "y"], obs=[dict(pat=P[1], set=eff(setting(P[1])))])]))
         p = os.path.join(ctx.work, "synthetic.ndjson")
         open(p, "w").write("\n".join(json.dumps(e) for e in syn) + "\n")
         ok_s, _ = ctx.validate_trace("Trace_Settings", "Trace_Settings", p, name="selftest-syn-strict")
@@ -319,7 +327,7 @@ def run(ctx):
         if ok_s or not ok_a:
             raise vlib.Inconclusive("binding self-test failed: synthetic non-most-specific resolution strict=%s asbuilt=%s" % (ok_s, ok_a))
         # and a most-specific resolution is accepted by the strict spec
-        syn[-1]["res"][0]["obs"] = [dict(pat=P[2], set=eff(setting(P[2], 0)))]
+        syn[-1]["res"][0]["obs"] = [dict(pat=P[2], set=eff(setting(P[2])))]
         open(p, "w").write("\n".join(json.dumps(e) for e in syn) + "\n")
         ok_s, _ = ctx.validate_trace("Trace_Settings", "Trace_Settings", p, name="selftest-syn-good")
         ctx.extra["selftest_most_specific_accepted_by_strict"] = ok_s
